@@ -289,6 +289,10 @@ func (conv *converter) expandMacro(macro *localMacroFunc, call *ast.CallExpr) ir
 	body := astcopy.Expr(macro.template)
 	expanded := astutil.Apply(body, nil, func(cur *astutil.Cursor) bool {
 		if ident, ok := cur.Node().(*ast.Ident); ok {
+			if _, isSelector := cur.Parent().(*ast.SelectorExpr); isSelector && cur.Name() == "Sel" {
+				// A selected field/method name is not a reference to the parameter.
+				return true
+			}
 			arg, ok := args[ident.Name]
 			if ok {
 				cur.Replace(arg)
